@@ -337,6 +337,17 @@ type jobResult struct {
 }
 
 func runJob(j job, alphabet []pmtref.Hash, maxHashes func(uint32, int) int, rng *vh.RNG, secondBytes []int) jobResult {
+	if j.count == 7 && len(secondBytes) > 32 {
+		// count 7 with 2-byte flags: every 8th value of the second byte plus the all-ones patterns (the full
+		// 65536 x 3^7 product costs as much as all smaller counts together)
+		var sb []int
+		for _, b := range secondBytes {
+			if b%8 == 0 || b == 1 || b == 3 || b == 7 || b == 0x0f || b == 0x1f || b == 0x3f || b == 0x7f || b == 0xff {
+				sb = append(sb, b)
+			}
+		}
+		secondBytes = sb
+	}
 	res := jobResult{s: newSink(), samples: map[string][]sample{}}
 	seen := map[string]int{}
 	var flagSets [][]byte
